@@ -582,7 +582,9 @@ fn parse_media_playlist<'a>(
     let mut has_partial_segment = false;
     let mut has_discontinuity_tag = false;
     let mut unknown = vec![];
-    let mut available_keys = HashSet::new();
+    // NOTE: the keys are kept in the order of their tags, so that the order of
+    //       `MediaSegment::keys` does not depend on the seed of a hash container.
+    let mut available_keys: Vec<ExtXKey<'a>> = Vec::new();
 
     for line in Lines::from(input) {
         match line? {
@@ -631,16 +633,16 @@ fn parse_media_playlist<'a>(
                             }
                         } else {
                             available_keys.clear();
-                            available_keys.insert(ExtXKey::empty());
+                            available_keys.push(ExtXKey::empty());
                             is_new_key = false;
                         }
 
                         if let Some(key) = &remove {
-                            available_keys.remove(key);
+                            available_keys.retain(|k| k != key);
                         }
 
                         if is_new_key {
-                            available_keys.insert(key);
+                            available_keys.push(key);
                         }
                     }
                     Tag::ExtXMap(mut t) => {
